@@ -18,7 +18,8 @@ let split_on sep l =  (* split a word list on a separator word *)
 
 type shape = USet | UMap | UMMap | OSet | OMSet | OMap | OMMap | Vec
 let shape_of = function
-  | "uset" | "uset_o" -> USet | "umap" | "umap_o" -> UMap | "ummap" | "ummap_o" -> UMMap
+  | "uset" | "uset_o" | "usetf" | "usetf_o" -> USet | "umap" | "umap_o" | "umapf" | "umapf_o" -> UMap
+  | "ummap" | "ummap_o" | "ummapf" | "ummapf_o" -> UMMap | "svec" -> Vec
   | "smap" | "momap" -> OMap | "sumap" | "moumap" -> UMap
   | "set" -> OSet | "mset" -> OMSet | "map" -> OMap | "mmap" -> OMMap | "vec" -> Vec | _ -> failwith "kind"
 let is_map = function UMap | UMMap | OMap | OMMap -> true | _ -> false
@@ -26,13 +27,16 @@ let is_multi = function UMMap | OMSet | OMMap -> true | _ -> false
 let is_ordered = function OSet | OMSet | OMap | OMMap -> true | _ -> false
 let has_nodes = function UMMap | Vec -> false | _ -> true
 
+(* allocator kinds: 1 FFF 2 TTT 3 TFT 4 FTF 5 TTF 6 TFF 7 FTT 8 FFT  (POCCA, POCMA, POCS) *)
+let traits_of ak = match ak with 2 -> true, true, true | 3 -> true, false, true | 4 -> false, true, false
+  | 5 -> true, true, false | 6 -> true, false, false | 7 -> false, true, true | 8 -> false, false, true | _ -> false, false, false
 type cont = { mutable l : (BinNums.coq_Z * BinNums.coq_Z) list;   (* ordered: the sorted sequence; unordered unique: assoc list *)
               mutable mm : (BinNums.coq_Z * BinNums.coq_Z list) list; (* unordered_multimap: nested HashMultiMap state *)
               mutable aid : int }
 
-let run_assoc typed sh ak idA idB ops =
+let run_assoc typed moveonly nopayload sh ak idA idB ops =
   let stateful = ak <> 0 in
-  let cca, cma, cs = (match ak with 2 -> true, true, true | 3 -> true, false, true | 4 -> false, true, false | _ -> false, false, false) in
+  let cca, cma, cs = traits_of ak in
   let c = [| { l = []; mm = []; aid = if stateful then idA else 0 }; { l = []; mm = []; aid = if stateful then idB else 0 } |] in
   let multi = is_multi sh and ordered = is_ordered sh and ismap = is_map sh in
   let contents x = if sh = UMMap then WrapEq.mm_pairs x.mm else x.l in
@@ -41,6 +45,7 @@ let run_assoc typed sh ak idA idB ops =
   let pos_e e = if sh = UMMap then string_of_z (fst e) else e2s e in
   (* insertion without hint: (printable position, inserted) *)
   let insert x e =
+    let e = if nopayload then (fst e, zi 0) else e in
     if ordered then begin
       let ((i, b), l') = (if ismap then WrapOrdered.map_insert multi e x.l else Spec.ord_insert multi e x.l) in
       x.l <- l'; (pos_i i, b) end
@@ -145,6 +150,22 @@ let run_assoc typed sh ak idA idB ops =
         let d = c.(ai w 2 land 1) in
         if d != x then begin
           let (a, b) = (if ordered then Spec.ord_merge multi x.l d.l else Spec.u_merge multi x.l d.l) in x.l <- a; d.l <- b end; "-" end
+    | "fill" -> let n = ai w 2 and base = ai w 3 and step = ai w 4 and v0 = ai w 5 in
+      let ins = ref 0 in
+      for i = 0 to n - 1 do let (_, b) = insert x (zi (base + i * step), zi (v0 + i)) in if b then incr ins done;
+      Printf.sprintf "%d/%d" !ins (len (contents x))
+    | "rdump" -> if ordered then dump true (L.rev x.l) else ""
+    | "rsvu" | "rhs" -> if (not ordered) && sh <> UMMap then "1" else ""
+    | "emp0" -> if ismap && (not multi) && (not typed) then (let (p, b) = insert x (zi 0, zi 0) in p ^ "," ^ bstr b) else ""
+    | "kfn" -> let a = ai w 2 and b = ai w 3 in if ordered then bstr (a < b) ^ bstr (a < b) else bstr (a = b) ^ "1"
+    | "mvca" | "cpca" -> let ci = ai w 1 land 1 and di = ai w 2 land 1 in let d = c.(di) in
+      if ci <> di && (o = "mvca" || not moveonly) then begin
+        x.l <- d.l; x.mm <- d.mm; x.aid <- (if stateful then ai w 3 else 0);
+        if o = "mvca" then (d.l <- []; d.mm <- []) end;
+      Printf.sprintf "a%d" x.aid
+    | "movq" -> let d = c.(ai w 2 land 1) in
+      if d != x then (x.l <- d.l; x.mm <- d.mm; (if cma then x.aid <- d.aid); d.l <- []; d.mm <- []; Printf.sprintf "0110a%d" x.aid)
+      else Printf.sprintf "selfa%d" x.aid
     | "clr" -> x.l <- []; x.mm <- []; "-"
     | "swap" | "swp2" ->
       if (not cs) && c.(0).aid <> c.(1).aid then "skip"
@@ -177,9 +198,9 @@ let run_assoc typed sh ak idA idB ops =
   String.concat " " outs ^ " | " ^ dumpc c.(0) ^ " | " ^ dumpc c.(1)
 
 (* ---------------- vector: plain sequence; elements are (v, 0) so that Spec.cmp6 / insert_at / erase_range apply ---------------- *)
-let run_vec ak idA idB ops =
+let run_vec defv ak idA idB ops =
   let stateful = ak <> 0 in
-  let cca, cma, cs = (match ak with 2 -> true, true, true | 3 -> true, false, true | 4 -> false, true, false | _ -> false, false, false) in
+  let cca, cma, cs = traits_of ak in
   let c = [| { l = []; mm = []; aid = if stateful then idA else 0 }; { l = []; mm = []; aid = if stateful then idB else 0 } |] in
   let z0 = zi 0 in
   let mk v = (zi v, z0) in
@@ -201,7 +222,7 @@ let run_vec ak idA idB ops =
     | "erv" -> let p = ai w 2 in if p >= 0 && p < n then (x.l <- Spec.erase_range (ni p) (ni (p + 1)) x.l; string_of_int p) else "skip"
     | "errv" -> let i = ai w 2 and j = ai w 3 in if 0 <= i && i <= j && j <= n then (let (r, l') = Spec.ord_erase_range (ni i) (ni j) x.l in x.l <- l'; string_of_int (inat r)) else "skip"
     | "pop" -> if n > 0 then (x.l <- Spec.erase_range (ni (n - 1)) (ni n) x.l; "-") else "skip"
-    | "rsz" | "rszv" -> let m = ai w 2 in let v = if o = "rsz" then 0 else ai w 3 in
+    | "rsz" | "rszv" -> let m = ai w 2 in let v = if o = "rsz" then defv else ai w 3 in
       (if m <= n then x.l <- take m x.l else x.l <- x.l @ repl (m - n) (mk v)); "-"
     | "asg" -> x.l <- repl (ai w 2) (mk (ai w 3)); "-"
     | "asgr" -> x.l <- vals w 2; "-"
@@ -223,6 +244,18 @@ let run_vec ak idA idB ops =
     | "mov" -> let d = c.(ai w 2 land 1) in if d != x then (x.l <- d.l; (if cma then x.aid <- d.aid); d.l <- []); Printf.sprintf "a%d" x.aid
     | "cpc" -> let d = c.(ai w 2 land 1) in if d != x then (x.l <- d.l; x.aid <- d.aid); Printf.sprintf "a%d" x.aid
     | "mvc" -> let d = c.(ai w 2 land 1) in if d != x then (x.l <- d.l; x.aid <- d.aid; d.l <- []); Printf.sprintf "a%d" x.aid
+    | "fillv" -> let cnt = ai w 2 and v0 = ai w 3 in
+      let rec mk_from i = if i >= cnt then [] else mk (v0 + i) :: mk_from (i + 1) in x.l <- x.l @ mk_from 0; string_of_int (len x.l)
+    | "rdump" -> "[" ^ String.concat "," (L.map (fun e -> string_of_z (fst e)) (L.rev x.l)) ^ "]"
+    | "ctor" -> let kind = ai w 2 in let other = c.(1 - (ai w 1 land 1)) in
+      (match kind with
+       | 0 -> x.l <- repl (ai w 3) (mk defv)
+       | 1 -> x.l <- repl (ai w 3) (mk (ai w 4))
+       | 2 -> x.l <- vals w 4
+       | 3 -> let v = vals w 4 in x.l <- (if len v >= 2 then take 2 v else [])
+       | 4 -> x.l <- other.l; (if stateful then x.aid <- ai w 3)
+       | _ -> x.l <- other.l; other.l <- []; (if stateful then x.aid <- ai w 3));
+      Printf.sprintf "a%d" x.aid
     | "sz" -> Printf.sprintf "%d,%d" n (if n = 0 then 1 else 0)
     | "dump" -> dumpv x
     | _ -> "?" in
@@ -284,8 +317,8 @@ let () = iter_lines (fun line ->
           let h = Array.of_list head in
           let ops = L.map Array.of_list ops in
           (match shape_of kind with
-           | Vec -> run_vec (ai h 1) (ai h 2) (ai h 3) ops
-           | sh -> run_assoc (L.mem kind ["smap"; "sumap"; "momap"; "moumap"]) sh (ai h 1) (ai h 2) (ai h 3) ops)
+           | Vec -> run_vec (if kind = "svec" then (-1) else 0) (if kind = "svec" && ai h 1 <> 0 then 3 else ai h 1) (ai h 2) (ai h 3) ops
+           | sh -> run_assoc (L.mem kind ["smap"; "sumap"; "momap"; "moumap"]) (L.mem kind ["momap"; "moumap"]) (L.mem kind ["usetf"; "usetf_o"]) sh (ai h 1) (ai h 2) (ai h 3) ops)
         | [] -> "?"))
   with e -> "MODEL-EXC " ^ Printexc.to_string e) in
   print_endline res)
